@@ -19,9 +19,15 @@ try:
         run(["git", "checkout", "--", "."])
         r0 = run(["/venv/bin/python", os.path.join(d, "demo.py")])
         out["demo_clean_exit"] = r0.returncode
-        a = run(["git", "apply", "--3way", os.path.join(d, "patch.diff")])
+        pf = os.path.join(d, "patch_rebased.diff") if os.path.exists(os.path.join(d, "patch_rebased.diff")) else os.path.join(d, "patch.diff")
+        out["patch_used"] = os.path.basename(pf)
+        a = run(["git", "apply", pf])
         if a.returncode != 0:
-            a = run(["git", "apply", os.path.join(d, "patch.diff")])
+            run(["git", "checkout", "--", "."])
+            a = run(["git", "apply", "--3way", pf])
+            if run(["git", "diff", "--name-only", "--diff-filter=U"]).stdout.strip():
+                a.returncode = 1
+                run(["git", "reset", "-q", "--hard", "HEAD"])
         if a.returncode != 0:
             out["applies"] = False
             out["error"] = a.stderr[-300:]
